@@ -9,6 +9,7 @@ import (
 	"runtime"
 	"strconv"
 	"strings"
+	"time"
 
 	"simrt"
 )
@@ -24,6 +25,11 @@ type slotObj struct {
 	hasTemp bool
 	hasEnv  bool
 	steps   []stateStep // state-changing operations after the first decode
+	// inner != "": this slot holds only the embedded lower-level object of a decoded
+	// Temporal/Environmental object ("Base" / "Temporal"), whose owner nobody
+	// references any more; parent is how to rebuild it
+	inner  string
+	parent *slotObj
 }
 
 // stateStep is a re-decode or a field assignment applied to an object; the
@@ -65,8 +71,45 @@ func (s *slotObj) applyStep(st stateStep) string {
 	return "set:" + st.field.name + "=" + strconv.FormatInt(st.val, 10)
 }
 
+// takeInner returns a slot that holds only the embedded lower-level object.
+func (s *slotObj) takeInner(which string) *slotObj {
+	cur := s.current()
+	if isNilObj(cur) {
+		return nil
+	}
+	var in any
+	var ok bool
+	if which == "Temporal" {
+		in, ok = temporalMetricsOf(cur)
+	} else {
+		in, ok = baseMetricsOf(cur)
+	}
+	if !ok || isNilObj(in) || kindOf(in) == s.kind {
+		return nil
+	}
+	// a copy of the parent's history, so that the twin can be rebuilt without
+	// keeping the aged owner alive
+	p := *s
+	p.res, p.recv = nil, nil
+	return &slotObj{kind: kindOf(in), res: in, recv: in, origin: s.origin + "|inner:" + which, vec: s.vec, inner: which, parent: &p}
+}
+
 // rebuild replays the slot's state history on fresh objects, without any query.
 func (s *slotObj) rebuild() *slotObj {
+	if s.inner != "" {
+		pt := s.parent.rebuild()
+		t := pt.takeInner(s.inner)
+		if t == nil {
+			return &slotObj{kind: s.kind}
+		}
+		for _, st := range s.steps {
+			func() {
+				defer func() { _ = recover() }()
+				t.applyStep(st)
+			}()
+		}
+		return t
+	}
 	t := doDecode(s.kind, s.nilrecv, s.vec)
 	for _, st := range s.steps {
 		func() {
@@ -339,6 +382,30 @@ func (c *taskCtx) execOp(op *Op) string {
 			return renderExport(de.rd, de.err)
 		case "lkp":
 			return doLookup(op.Fn, op.SArg, op.IArg, op.Lang)
+		case "inner":
+			// keep only the embedded lower-level object of slot Obj (in slot Dst) and
+			// forget the owner
+			sl := c.slot(op.Obj)
+			if sl == nil || (op.Obj != nil && op.Obj.Shared) || sl.inner != "" {
+				return "skip"
+			}
+			in := sl.takeInner(op.Field)
+			if in == nil {
+				return "skip"
+			}
+			c.objs[op.Dst] = in
+			delete(c.objs, op.Obj.I) // the owner is unreachable from now on
+			return "inner:" + op.Field + " " + snapshot(in.res)
+		case "gc":
+			// a garbage collection at this instant, finalizers included: two cycles
+			// (sync.Pool victim caches), then a moment for the finalizer goroutine
+			runtime.GC()
+			runtime.GC()
+			for i := 0; i < 4; i++ {
+				runtime.Gosched()
+			}
+			time.Sleep(200 * time.Microsecond)
+			return "gc"
 		case "redec":
 			sl := c.slot(op.Obj)
 			if sl == nil || (op.Obj != nil && op.Obj.Shared) {
